@@ -17,6 +17,7 @@ import Emg3dVerif.Drv.C18
 import Emg3dVerif.Drv.C19
 import Emg3dVerif.Drv.C20
 import Emg3dVerif.Drv.C07
+import Emg3dVerif.Drv.Cycle
 open Emg
 
 def handle (ws : List String) : String :=
@@ -28,6 +29,7 @@ def handle (ws : List String) : String :=
       else if w == "amat" || w == "fit" || w == "eta" || w == "zeta" then Drv02.handle ws
       else if w == "gs" || w == "smoothing" then Drv03.handle ws
       else if w == "ldlt" then Drv03.handleLdlt ws
+      else if w == "mgrun" then DrvCycle.handle ws
       else if w == "restrict" || w == "prolong" || w == "rweights" || w == "rparam" || w == "cgrid" then Drv04.handle ws
       else if w == "solve" then Drv01.handle ws
       else if w == "survey" || w == "misfit" then Drv13.handle ws
